@@ -3,6 +3,8 @@
 #include "ref/ref_lzh.h"
 #include "ref/ref_vol.h"
 #include "Archive/VolFile.h"
+#include <memory>
+#include <type_traits>
 
 using namespace verif;
 using namespace OP2Utility::Archive;
@@ -14,6 +16,7 @@ const size_t kSizes[] = {1, 2, 3, 61, 62, 63, 4033, 4034, 4035, 4095, 4096, 4097
 struct Drain { int mode; std::vector<size_t> ks; std::vector<uint8_t> which; };   // mode 0 = internal buffer, 1 = GetData with sizes ks (cycled),
 // 2 = one session mixing both interfaces: step i uses GetData(ks[i]) when which[i] else GetInternalBuffer (both cycled)
 
+uint64_t g_forks_copy = 0, g_forks_move = 0;
 struct LibResult { std::vector<uint8_t> out; bool threw = false; std::string what; };
 
 LibResult run_lib(const std::vector<uint8_t>& in, const Drain& d, size_t limit) {
@@ -23,9 +26,21 @@ LibResult run_lib(const std::vector<uint8_t>& in, const Drain& d, size_t limit) 
 	struct F { uint8_t* p; ~F() { free(p); } } g{heap};
 	if (!in.empty()) memcpy(heap, in.data(), in.size());
 	try {
-		HuffLZ dec(BitStreamReader(heap, in.size()));
+		auto decp = std::make_unique<HuffLZ>(BitStreamReader(heap, in.size()));
+		// In a quarter of the runs the decoder object is replaced, after a few drain calls, by a copy (or a moved-to object) of itself and the
+		// original is destroyed: the decoder is a value, and a copy taken in mid-stream is the decompressor of the same byte string in the same
+		// state - it must continue with the same bytes.  (Compiled only while the class is copyable / movable.)
+		const uint64_t hh = fnv1a(in.data(), in.size(), d.mode * 131 + (d.ks.empty() ? 0 : d.ks[0]));
+		const size_t forkAt = (hh & 3) == 0 ? size_t((hh >> 8) % 7) : ~size_t(0);
+		auto fork = [&](size_t step) {
+			if (step != forkAt) return;
+			if constexpr (std::is_copy_constructible_v<HuffLZ>) { if ((hh >> 4) & 1) { auto c = std::make_unique<HuffLZ>(*decp); decp = std::move(c); g_forks_copy++; return; } }
+			if constexpr (std::is_move_constructible_v<HuffLZ>) { auto c = std::make_unique<HuffLZ>(std::move(*decp)); decp = std::move(c); g_forks_move++; }
+		};
+#define dec (*decp)
 		if (d.mode == 0) {
-			for (;;) {
+			for (size_t it = 0;; ++it) {
+				fork(it);
 				size_t n = 0;
 				const char* p = dec.GetInternalBuffer(&n);
 				if (n == 0) break;
@@ -38,6 +53,7 @@ LibResult run_lib(const std::vector<uint8_t>& in, const Drain& d, size_t limit) 
 			// the stream has ended when the internal-buffer call reports 0 or a copy comes back short
 			size_t i = 0;
 			for (;; ++i) {
+				fork(i);
 				if (!d.which[i % d.which.size()]) {
 					size_t n = 0;
 					const char* p = dec.GetInternalBuffer(&n);
@@ -58,6 +74,7 @@ LibResult run_lib(const std::vector<uint8_t>& in, const Drain& d, size_t limit) 
 		} else {
 			size_t i = 0;
 			for (;;) {
+				fork(i);
 				size_t k = d.ks[i++ % d.ks.size()];
 				char* buf = static_cast<char*>(malloc(k));
 				struct F2 { char* p; ~F2() { free(p); } } g2{buf};
@@ -75,6 +92,7 @@ LibResult run_lib(const std::vector<uint8_t>& in, const Drain& d, size_t limit) 
 			char tail[5]; size_t g = dec.GetData(tail, sizeof tail);
 			V_CHECK(g == 0, "GetData delivered " << g << " more bytes after the stream had ended");
 		}
+#undef dec
 	} catch (const Violation&) { throw; }
 	catch (const std::exception& e) { r.threw = true; r.what = e.what(); }
 	return r;
@@ -219,6 +237,7 @@ void run_case(Tape& t, Stats& st) {
 	}
 	if (t.below(6) == 0) { vol_path(in, ref); st.cls("vol_extract_path"); }
 	st.cls(d1.mode == 0 ? "first_drain:internal" : "first_drain:getdata");
+	if (g_forks_copy) { st.cls("decoder_copied_in_mid_stream", g_forks_copy); g_forks_copy = 0; } if (g_forks_move) { st.cls("decoder_moved_in_mid_stream", g_forks_move); g_forks_move = 0; }
 	account(st, ref, lenHist, distHist, fname, fnv1a(in.data(), in.size(), d1.ks[0]));
 	if (st.want_sample()) st.sample(std::string("{\"family\":\"") + fname + "\",\"input_len\":" + std::to_string(in.size()) + ",\"input\":\"" + hex(in, 20) + "\",\"codes\":" + std::to_string(ref.codes) + ",\"output_len\":" + std::to_string(ref.out.size()) + ",\"drain\":[" + std::to_string(d1.mode) + "," + std::to_string(d1.ks[0]) + "]}");
 }
